@@ -198,6 +198,7 @@ prop("C01", "exploration",
          {"harness": "eng", "flavour": "shim", "args": {"quick": ["--mode", "c01"], "thorough": ["--mode", "c01"]}, "timeout": {"quick": 900, "thorough": 3400}},
          {"harness": "eng", "flavour": "shim", "tags": ["poll_opt"], "args": {"quick": ["--mode", "c01", "--n", "4"], "thorough": ["--mode", "c01", "--n", "40"]}, "timeout": {"quick": 900, "thorough": 3400}},
          {"harness": "eng", "flavour": "shim", "tags": ["gc_opt"], "args": {"quick": ["--mode", "c01", "--n", "3"], "thorough": ["--mode", "c01", "--n", "40"]}, "timeout": {"quick": 900, "thorough": 3400}},
+         {"harness": "eng", "flavour": "shim", "arch": "386", "args": {"quick": ["--mode", "c01", "--n", "6"], "thorough": ["--mode", "c01", "--n", "48"]}, "timeout": {"quick": 900, "thorough": 3400}},
          {"harness": "eng", "flavour": "shim", "race": True, "tiers": ["thorough"], "args": {"thorough": ["--mode", "c01", "--n", "24"]}, "timeout": {"thorough": 3400}},
      ],
      "Online stream oracle inside the event handler of real engines over real sockets, with a syscall shim (LT only) widening the kernel's segmentation.",
@@ -218,6 +219,7 @@ prop("C02", "exploration",
          {"harness": "eng", "flavour": "shim", "args": {"quick": ["--mode", "c02"], "thorough": ["--mode", "c02"]}, "timeout": {"quick": 900, "thorough": 3400}},
          {"harness": "eng", "flavour": "shim", "tags": ["poll_opt"], "args": {"quick": ["--mode", "c02", "--n", "4"], "thorough": ["--mode", "c02", "--n", "40"]}, "timeout": {"quick": 900, "thorough": 3400}},
          {"harness": "eng", "flavour": "shim", "tags": ["gc_opt"], "args": {"quick": ["--mode", "c02", "--n", "3"], "thorough": ["--mode", "c02", "--n", "40"]}, "timeout": {"quick": 900, "thorough": 3400}},
+         {"harness": "eng", "flavour": "shim", "arch": "386", "args": {"quick": ["--mode", "c02", "--n", "4"], "thorough": ["--mode", "c02", "--n", "48"]}, "timeout": {"quick": 900, "thorough": 3400}},
          {"harness": "eng", "flavour": "shim", "race": True, "tiers": ["thorough"], "args": {"thorough": ["--mode", "c02", "--n", "24"]}, "timeout": {"thorough": 3400}},
      ],
      "Peer-side record oracle over the received byte stream of real connections plus an in-callback conservation check against the shim's byte counts.",
@@ -237,6 +239,7 @@ prop("C04", "exploration",
          {"harness": "eng", "flavour": "shim", "args": {"quick": ["--mode", "c04", "--n", "20"], "thorough": ["--mode", "c04"]}, "timeout": {"quick": 900, "thorough": 3400}},
          {"harness": "eng", "flavour": "shim", "tags": ["poll_opt"], "args": {"quick": ["--mode", "c04", "--n", "6"], "thorough": ["--mode", "c04", "--n", "60"]}, "timeout": {"quick": 900, "thorough": 3400}},
          {"harness": "eng", "flavour": "shim", "tags": ["gc_opt"], "args": {"quick": ["--mode", "c04", "--n", "4"], "thorough": ["--mode", "c04", "--n", "60"]}, "timeout": {"quick": 900, "thorough": 3400}},
+         {"harness": "eng", "flavour": "shim", "arch": "386", "args": {"quick": ["--mode", "c04", "--n", "4"], "thorough": ["--mode", "c04", "--n", "40"]}, "timeout": {"quick": 900, "thorough": 3400}},
      ],
      "Online lifecycle automaton inside the event handler of real engines, driven by histories that mix every close cause, including closes requested from inside callbacks and races between causes.",
      "close causes are armed by the harness just before it provokes them; a cause provoked by the kernel on its own (none on loopback) would be reported as unexpected",
@@ -319,6 +322,7 @@ prop("C08", "exploration",
      [
          {"harness": "eng", "flavour": "shim", "args": {"quick": ["--mode", "c08"], "thorough": ["--mode", "c08"]}, "timeout": {"quick": 900, "thorough": 3400}},
          {"harness": "eng", "flavour": "shim", "tags": ["poll_opt"], "args": {"quick": ["--mode", "c08", "--n", "4"], "thorough": ["--mode", "c08", "--n", "40"]}, "timeout": {"quick": 900, "thorough": 3400}},
+         {"harness": "eng", "flavour": "shim", "arch": "386", "args": {"quick": ["--mode", "c08", "--n", "4"], "thorough": ["--mode", "c08", "--n", "40"]}, "timeout": {"quick": 900, "thorough": 3400}},
      ],
      "Per-datagram identity oracle inside OnTraffic and at every client socket, cross-checked with the shim's recvfrom/sendto counts.",
      "datagram sizes up to the read buffer (64 KiB); loopback only", "runtime monitor: per-datagram identity oracle + shim call counts", "DESIGN.md §3 C08", assumptions=ENGINE_ASSUME)
